@@ -90,8 +90,8 @@ def critical_points_on_axis(f, zlo=-0.69, zhi=0.69):
     return out
 
 
-def axis_and_separatrices(f):
-    cps = critical_points_on_axis(f)
+def axis_and_separatrices(f, zlim=0.69):
+    cps = critical_points_on_axis(f, -zlim, zlim)
     os_ = [c for c in cps if c["kind"] == "O"]
     xs = [c for c in cps if c["kind"] == "X"]
     o = min(os_, key=lambda c: abs(c["Z"]))
@@ -164,7 +164,7 @@ def pressure_function(kind):
 
 
 BASE = dict(
-    family="G", geom="lsn", sigma=1.0, mirror=False, nR=65, nZ=65,
+    family="G", geom="lsn", sigma=1.0, mirror=False, nR=65, nZ=83, zmax=0.9,
     fpol="linear", pressure="smooth", profile_ext=False, nprof=65,
     wall="W0", via="api", options={}, nonorth={}, post=[], kind="grid",
 )
@@ -189,10 +189,10 @@ def build_inputs(config):
         raise ValueError("build_inputs handles family G")
     f = psi_analytic(c["geom"], c["sigma"], c["mirror"])
     R1D = np.linspace(1.0, 2.0, c["nR"])
-    Z1D = np.linspace(-0.7, 0.7, c["nZ"])
+    Z1D = np.linspace(-c["zmax"], c["zmax"], c["nZ"])
     R2D, Z2D = np.meshgrid(R1D, Z1D, indexing="ij")
     psi2D = f(R2D, Z2D)
-    o, xs = axis_and_separatrices(f)
+    o, xs = axis_and_separatrices(f, c["zmax"] - 0.01)
     psi_ax, psi_sep = o["psi"], xs[0]["psi"]
     smax = 1.3 if c["profile_ext"] else 1.0
     s = np.linspace(0.0, smax, c["nprof"])
